@@ -310,8 +310,37 @@ func proxySites() []Site {
 	}
 }
 
+const dsc = "pkg/discovery/discovery.go"
+const dtr = "pkg/discovery/translate.go"
+const exl = "pkg/explore/explore.go"
+
+func discSites() []Site {
+	return []Site{
+		{Name: "reloadKeeps", File: dsc, Func: "TargetsDiscovery.ApplyConfig", Sel: "if:0:1", Params: "(exist : Bool)", Ret: "Bool"},
+		{Name: "jobUnknown", File: dsc, Func: "TargetsDiscovery.translateTargets", Sel: "if:0:3", Params: "(configured : Bool)", Ret: "Bool",
+			Leaves: map[string]string{"cfg == nil": "!configured"}},
+		{Name: "isActive", File: dsc, Func: "TargetsDiscovery.translateTargets", Sel: "if:1:3", Params: "(nLabels nDiscovered : Nat)", Ret: "Bool",
+			Leaves: map[string]string{"tar.PromTarget.Labels().Len()": "nLabels", "tar.PromTarget.DiscoveredLabels().Len()": "nDiscovered"}},
+		{Name: "isDropped", File: dsc, Func: "TargetsDiscovery.translateTargets", Sel: "if:2:3", Params: "(nLabels nDiscovered : Nat)", Ret: "Bool",
+			Leaves: map[string]string{"tar.PromTarget.Labels().Len()": "nLabels", "tar.PromTarget.DiscoveredLabels().Len()": "nDiscovered"}},
+		{Name: "targetFails", File: dtr, Func: "targetsFromGroup", Sel: "if:1:5", Params: "(errNil : Bool)", Ret: "Bool",
+			Leaves: map[string]string{"err != nil": "!errNil"}},
+		{Name: "targetExists", File: dtr, Func: "targetsFromGroup", Sel: "if:2:5", Params: "(hasLabels hasOrig : Bool)", Ret: "Bool",
+			Leaves: map[string]string{"lbls != nil": "hasLabels", "origLabels != nil": "hasOrig"}},
+		{Name: "dedupApplies", File: dtr, Func: "targetsFromGroup", Sel: "if:3:5", Params: "(hasLabels : Bool)", Ret: "Bool",
+			Leaves: map[string]string{"lbls != nil": "hasLabels"}},
+		{Name: "dedupSkips", File: dtr, Func: "targetsFromGroup", Sel: "if:4:5", Params: "(seen : Bool)", Ret: "Bool",
+			Leaves: map[string]string{"exists[hash]": "seen"}},
+		{Name: "exploreKeepsJob", File: exl, Func: "Explore.ApplyConfig", Sel: "if:0:1", Params: "(jobListed : Bool)", Ret: "Bool",
+			Leaves: map[string]string{"types.FindString(v.job, jobs...)": "jobListed"}},
+		{Name: "exploreKeepsEntry", File: exl, Func: "Explore.UpdateTargets", Sel: "if:0:1", Params: "(known : Bool)", Ret: "Bool",
+			Leaves: map[string]string{"e.targets[hash] != nil": "known"}},
+	}
+}
+
 func modules() []Module {
 	return []Module{
+		{Path: "Kvass/Gen/Disc.lean", NS: "Kvass.Gen.Disc", Imports: []string{"Kvass.Types"}, Global: map[string]string{}, Sites: discSites()},
 		{Path: "Kvass/Gen/Proxy.lean", NS: "Kvass.Gen.Proxy", Imports: []string{"Kvass.Types"}, Global: map[string]string{}, Sites: proxySites()},
 		{Path: "Kvass/Gen/Store.lean", NS: "Kvass.Gen.Store", Imports: []string{"Kvass.Types"}, Global: map[string]string{}, Sites: storeSites()},
 		{Path: "Kvass/Gen/Sidecar.lean", NS: "Kvass.Gen.Sidecar", Imports: []string{"Kvass.Types"}, Global: map[string]string{}, Sites: sidecarSites()},
